@@ -419,6 +419,21 @@ class ReuseTOML(GlobalLicensing):
         new_dict["source"] = source
 
         annotation_dicts = values.get("annotations", [])
+        if not isinstance(annotation_dicts, list) or not all(
+            isinstance(annotation, dict) for annotation in annotation_dicts
+        ):
+            raise GlobalLicensingParseTypeError(
+                _(
+                    "{attr_name} must be a {type_name} (got {value} that is a"
+                    " {value_class})."
+                ).format(
+                    attr_name=repr("annotations"),
+                    type_name="list of tables",
+                    value=repr(annotation_dicts),
+                    value_class=repr(annotation_dicts.__class__),
+                ),
+                source=source,
+            )
         try:
             annotations = [
                 AnnotationsItem.from_dict(annotation)
